@@ -261,6 +261,10 @@ def gen_valid_headers(rng, n, max_payload=600, big_every=200):
             ab = special_v4(rng) + special_v4(rng) + rng.choice([b"\x00\x00\xff\xff", b"\xff\xff\x00\x00", rand_bytes(rng, 4)])
         elif size == 216 and i % 2 == 0:
             ab = special_unix(rng) + special_unix(rng)
+        if i % 11 == 10 and size:
+            # source = destination (addresses and ports): a semantic filter ("loop", "self-connection")
+            half = {12: 4, 36: 16, 216: 108}[size]
+            ab = ab[:half] + ab[:half] + (ab[2 * half:2 * half + 2] * 2 if size != 216 else b"")
         kind = rng.random()
         if i % big_every == big_every - 1:
             budget = 65535 - size
